@@ -1,6 +1,8 @@
 """C09  Correlation estimates match their definition and are consistent."""
 import numpy as np
 
+import single
+
 import proto
 from common import gen_data, rel, dyadic
 
@@ -150,7 +152,8 @@ def oracle_mtx(p):
     out = []
     if p["method"] == "autocorrelation":
         X = np.asarray(sp.corrmtx(x, m, "autocorrelation"))
-        r = sp.CORRELATION(x, maxlags=m, norm="biased")
+        X = X.astype(complex if np.iscomplexobj(X) else float)        # single-precision input: Gram matrix in doubles
+        r = sp.CORRELATION(x.astype(complex if np.iscomplexobj(x) else float), maxlags=m, norm="biased")
         from scipy.linalg import toeplitz
         G = X.conj().T @ X
         T = toeplitz(np.conj(r), r)   # Hermitian Toeplitz with first row r
@@ -180,7 +183,8 @@ KINDS = {
     "xcorr": {"impl": impl_xcorr, "model": model_xcorr, "oracle": oracle_xcorr, "rtol": 1e-12, "atol": 1e-300,
               "post": post_xcorr, "key": _key, "tags": _tags, "nontrivial": lambda p: len(p["x"]) >= 2},
     "corrmtx": {"impl": impl_mtx, "model": model_mtx, "oracle": oracle_mtx, "rtol": 1e-12, "atol": 0.0,
-                "key": _key, "tags": lambda p: ["mtx:" + p["method"]], "nontrivial": lambda p: len(p["x"]) >= 2},
+                "key": _key, "tags": lambda p: ["mtx:" + p["method"], "dtype:%s" % np.asarray(p["x"]).dtype],
+                "nontrivial": lambda p: len(p["x"]) >= 2},
 }
 
 
@@ -190,7 +194,10 @@ def _data(nrng, N, cplx, i):
     return np.asarray(x, dtype=complex if cplx else float)
 
 
+KINDS["single"] = single.kind("C09")
+
 def gen(rng, nrng, tier):
+    yield from single.gen("C09", nrng, tier)
     n = 300 if tier == "quick" else 5000
     maxN = 16 if tier == "quick" else 40
     for i in range(n):
@@ -237,4 +244,6 @@ def gen(rng, nrng, tier):
         N = int(nrng.integers(2, maxN + 1))
         m = int(nrng.integers(1, N))
         x = _data(nrng, N, cplx, i)
+        if (i // 5) % 4 == 3:
+            x = x.astype(np.complex64 if cplx else np.float32)    # single precision (the dyadic samples are exact in it)
         yield ("corrmtx", {"x": x, "m": m, "method": methods[i % 5]})
